@@ -38,6 +38,9 @@ T = {
  "C14": ("differential testing of every assembly kernel against the portable C routine + the property battery re-run against builds with each tuning table / configure option",
          "Three generated-input layers: (1) all 351 assembly files under mpn/x86_64/** are assembled standalone and every exported entry point is compared bitwise (outputs, return value, guard limbs) with the portable C routine of the same name built from the tree, with tests/refmpn.c and with an independent __int128 restatement, on generated lengths/alignments/overlaps/limb styles; (2) the numeric battery (C01 C02 C03 C06 C07 C08 C09 C10 check functions, refint oracle) runs against builds of the tree with the shipped gmp-mparam.h tables (3 per quick run chosen by seed, all 20 in thorough); (3) the same battery runs against real configure runs (--enable-fat, --enable-alloca=debug --enable-assert; thorough adds malloc-reentrant, alloca and one build per CPU name) and the fat build's dispatch table is checked against the configure.ac path of the host CPU. Exploration over configurations x inputs.",
          "DESIGN.md section 5 C14 and props/C14/README.md"),
+ "C09": ("property-based testing (byte-stream PBT, u = k^n + delta constructions, refint root oracle) + libFuzzer in thorough",
+         "Generated-input search over sqrt/sqrtrem/mpn_sqrtrem/root/nthroot/rootrem and the perfect-square/perfect-power predicates with u built as k^n, k^n+-1, k^n+-2 (k with long runs of ones, n from 1 to beyond the bit length, negative u with odd n), odd and even limb counts and all permitted aliasings; results are decided by refint integer roots, remainders u - root^n and the exactness equivalence. Exploration with an exact executable oracle.",
+         "DESIGN.md section 5 C09"),
 }
 built = [i for i in ids if i in T and (os.path.exists(os.path.join(ROOT, "props", i + ".cc")) or os.path.exists(os.path.join(ROOT, "props", i + "_run.py")))]
 checks = []
